@@ -558,7 +558,7 @@ func (k *c38) check(o *stepObs) {
 			if bad := only(ch, allowed); len(bad) > 0 {
 				what := "other-element-changed"
 				if m == T.parent && !strings.HasPrefix(bad[0], "@") {
-					what = "attribute-moved-to-parent:" + cellClass(bad[0])
+					what = "attribute-moved-to-parent"
 				} else if kids[m] && bad[0] == "@id" {
 					what = "child-renamed-without-collision"
 				} else if pre.under(m, T.m) || e.edge && (pre.under(e.src, T.m) || pre.under(e.dst, T.m)) {
@@ -617,9 +617,6 @@ func (k *c38) check(o *stepObs) {
 		if had {
 			x.label("delete-attr:was-set")
 			if v, still := post.els[T.m].cells[c.cell]; still {
-				if strings.ContainsAny(T.id, "\"'") {
-					suffix = "@quoted-name"
-				}
 				x.fail(o.step, "delete-attr:not-reset:"+cellClass(c.cell)+suffix, "%s: %s is still %q\n%s", c, c.cell, v, o.ctx())
 				return
 			}
@@ -927,9 +924,6 @@ func (k *c40) check(o *stepObs) {
 				what = "unpredicted-id-change"
 			} else if b.absID == a.absID {
 				what = "predicted-change-did-not-happen"
-			}
-			if c.kind == opRename && quoteName(c.newName) != c.newName {
-				name += "@name-needs-quotes"
 			}
 			x.fail(o.step, "delta-mismatch:"+what+":"+kind+":"+name, "%s: %s %s had ID %q, deltas predict %q, the edit gives %q\ndeltas: %v\n%s", c, kind, m, a.absID, want, b.absID, o.deltas, o.ctx())
 			return
